@@ -95,3 +95,31 @@ Definition C12_from_set_full_statement : Prop :=
                  tree_root (i_zero IF) T = spec /\ persisted IF T m) /\
       root_from_set (i_zero IF) (i_hleaf IF) (i_hnode IF) (i_sum IF) (i_kbit IF) (i_kcpl IF) kcmp set = Ok spec /\
       (exists nodes, nodes_from_set (i_zero IF) (i_hleaf IF) (i_hnode IF) (i_sum IF) (i_kbit IF) (i_kcpl IF) kcmp set = Ok (spec, nodes)).
+
+(* ------------------------------------------------------------------------------------------
+   The byte-level key functions of common/msb.rs (as modelled) are the bit-list functions the
+   interface speaks about, on well-formed byte strings (every element < 256): reading a bit
+   MSB-first, the common prefix length, and the bytes <-> bits conversions. *)
+From FV Require Import Merkle.SparseMsb.
+
+Theorem C12_msb_get_bit :
+  forall (k : bytes) (i : N), wf_bytes k = true ->
+    get_bit_at_index_from_msb k i = nth_error (bits_of_bytes k) (N.to_nat i).
+Proof. exact msb_get_bit. Qed.
+Print Assumptions C12_msb_get_bit.
+
+Theorem C12_msb_common_prefix :
+  forall a b : bytes, wf_bytes a = true -> wf_bytes b = true -> length a = length b ->
+    common_prefix_count a b = N.of_nat (cpl (bits_of_bytes a) (bits_of_bytes b)).
+Proof. exact msb_common_prefix. Qed.
+Print Assumptions C12_msb_common_prefix.
+
+Theorem C12_msb_roundtrip :
+  (forall k : bytes, wf_bytes k = true -> bytes_of_bits (bits_of_bytes k) = k) /\
+  (forall (n : nat) (ks : list bool), length ks = (8 * n)%nat ->
+     bits_of_bytes (bytes_of_bits ks) = ks /\ wf_bytes (bytes_of_bits ks) = true /\ length (bytes_of_bits ks) = n).
+Proof. exact (conj bytes_of_bits_of_bytes bits_of_bytes_of_bits). Qed.
+Print Assumptions C12_msb_roundtrip.
+
+Example C12_msb_premise : wf_bytes (zeros 31 ++ [255]) = true /\ length (bits_of_bytes (zeros 31 ++ [255])) = 256%nat.
+Proof. split; reflexivity. Qed.
